@@ -357,6 +357,15 @@ func (i *Interpreter) Exec(ctx context.Context, bs match.Bindings, props core.St
 	// Don't return before that goroutine is gone.
 	<-watched
 
+	if ctx.Err() != nil {
+		// The context ended: Whatever came back, this execution
+		// timed out (or was cancelled).  A short program can
+		// finish before the interrupt is seen, and an interrupt
+		// can get lost in the runtime (say when it arrives while
+		// an iterator is being closed).
+		return nil, Interrupted
+	}
+
 	if err != nil {
 		if _, is := err.(*goja.InterruptedError); is {
 			return nil, Interrupted
